@@ -24,6 +24,7 @@ from cirq.ops import (
     common_gates,
     dense_pauli_string as dps,
     gate_operation,
+    global_phase_op,
     identity,
     op_tree,
     pauli_gates,
@@ -365,9 +366,12 @@ class PauliStringPhasorGate(raw_types.Gate):
         if len(self.dense_pauli_string) <= 0:
             return
         # Qubits acted on via identity (padding) must not take part in the parity computation.
-        acted_qubits = [
-            q for q, p in zip(qubits, self.dense_pauli_string) if p != identity.I
-        ] or list(qubits)
+        acted_qubits = [q for q, p in zip(qubits, self.dense_pauli_string) if p != identity.I]
+        if not acted_qubits:
+            # The identity string only has a +1 eigenspace: a pure global phase.
+            if self.exponent_pos:
+                yield global_phase_op.global_phase_operation(1j ** (2 * self.exponent_pos))
+            return
         any_qubit = acted_qubits[0]
         to_z_ops = op_tree.freeze_op_tree(self._to_z_basis_ops(qubits))
         xor_decomp = tuple(xor_nonlocal_decompose(acted_qubits, any_qubit))
